@@ -138,6 +138,10 @@ def _apply_op(g, op, env):
   elif k == "setfield":
     l = find_by_text(g, op[1])
     l.set(op[2], op[3])
+  elif k == "setnone":
+    # the other documented spelling of removing a tag: assigning None
+    l = find_by_text(g, op[1])
+    l.set(op[2], None)
   elif k == "hadd":
     # header.add(tag, value[, datatype])
     if op[3] is None:
@@ -187,6 +191,9 @@ def op_to_py(op):
   if k == "setfield":
     return "[l for l in g.lines if str(l) == {!r}][0].set({!r}, {!r})".format(
         op[1], op[2], op[3])
+  if k == "setnone":
+    return "[l for l in g.lines if str(l) == {!r}][0].set({!r}, None)".format(
+        op[1], op[2])
   if k == "hadd":
     return "g.header.add({!r}, {!r}{})".format(
         op[1], op[2], "" if op[3] is None else ", {!r}".format(op[3]))
@@ -251,6 +258,7 @@ def enabled_ops(g, spec, env=None):
     for n, l in named:
       if observe.rt_of(l) in ("L", "C") and not observe.is_virtual(l):
         ops.append(("deltag", observe.safe_str(l), "ID"))
+        ops.append(("setnone", observe.safe_str(l), "ID"))
   if spec.readd_ops and env is not None:
     seen_r = set()
     for l in env.gone:
@@ -276,6 +284,7 @@ def enabled_ops(g, spec, env=None):
       t = observe.safe_str(l)
       if "xx:i:" in t or "xx:Z:" in t:
         ops.append(("deltag", t, "xx"))
+        ops.append(("setnone", t, "xx"))
       else:
         ops.append(("settag", t, "xx", 7))
         if spec.clone_ops and observe.rt_of(l) == "S":
